@@ -22,6 +22,18 @@ CHECKS = {
  "C16": (True, "E2", "model_checking", E2,
   "Merged breadth-first search over add/next/add(negative) histories of the real Streamix (tie-free delta alphabet, <=3 live events, depth 6; thorough 8) plus exhaustive unmerged programs (k<=3 events x 9 deltas x 3 lengths x every non-decreasing insertion point, exact ties accepted either way; thorough k<=4), long non-dyadic accumulations for drift, and all ControlStream assign/read words up to length 8 (thorough 10); oracle is the statement (cumulative start times), not the algorithm.",
   "Item values are opaque labels; adding after StopIteration is outside the contract; depth/size bounds."),
+ "C04": (True, "E1", "exploration", E1 + "; symbolic (linear-form) samples decide all numeric inputs of a shape in one run",
+  "Every numerator/denominator coefficient vector of length <=3 (thorough <=4) over {0,1,-1,2,-3,0.5} with a0 in {1,-1,2,-0.5,Fraction(1,2)} is compiled by the real LinearFilter.__call__ and run on symbolic input, symbolic zero and symbolic memory (linear forms over Q, linearity checked not assumed) plus a concrete exact vector, and compared with the textbook recurrence; memory kinds x zero kinds x constructors x input lengths on a sub-alphabet; sparse high delays; negative delays must raise ValueError.",
+  "Coefficient alphabet and order bound; coefficients are plain numbers (they are embedded textually by the code generator)."),
+ "C05": (True, "E1", "exploration", E1 + "; exact rational-function reference compared by cross-multiplication",
+  "All ordered pairs of a 90-filter pool (thorough 400) under + - * / on symbolic input (composite output vs composition of outputs vs reference recurrence vs numpoly/denpoly by cross-multiplication), scalars/unary/powers/delays per filter, all triples of a sub-pool for Cascade/ParallelFilter and the field laws, all expression trees of depth <=2 over {+,-,*,/,**n,f(g)} against exact rational functions, ==/!=/hash on all pairs of (filter, construction route), fractional-delay linearisation.",
+  "Pool/depth bounds; dyadic coefficients wherever a signal is run; == is structural equality."),
+ "C06": (True, "E1", "exploration", E1 + " with counting sources on every coefficient stream",
+  "Every placement of {absent, constant, 1, finite stream (len 0/2/5), periodic stream, constant stream} on b0..b2 and a0..a2 (60k shapes quick, 230k thorough) built through the dict constructor and Stream*z**-k expressions, run on symbolic input and compared with the time-varying recurrence on coefficient sequences, output length = shortest of input and coefficient streams, each coefficient source read exactly k times after k outputs; sums/products/scalings (incl. one stream feeding several product terms) vs element-by-element sequence arithmetic; constant streams vs constants.",
+  "Order <= 2; a Stream-bearing filter object is used once (copy() otherwise); degenerate 0/a0[n] shape excluded (see DESIGN.md)."),
+ "C07": (True, "E1", "exploration", E1,
+  "All ordered pairs of a pool of ~130 Laurent polynomials (thorough ~330; support -3..3, <=3 terms, coefficients in {1,-1,2,1/2,-3/2}, cancellation cases included) for + - *, commutativity, ==/!=/hash, evaluation homomorphism under all three schemes at 6 points, derivative linearity and product rule, composition; every polynomial alone for p-p, scalars, powers 0..3 (thorough 0..5), construction routes, order/values, diff/integrate; all triples of a sub-pool for associativity/distributivity; all 5460 Lagrange point sets (1..4 distinct abscissae) for both strategies. Exact Fractions throughout; no stored zero coefficient after any operation.",
+  "Pool and exponent bounds; Laurent composition only with monomial inner polynomial; evaluation at 0 only without negative powers."),
 }
 
 NOT_YET = "check not built yet in this session; see DESIGN.md section 4 for the planned model-checking harness"
